@@ -70,6 +70,22 @@ Theorem C15_deadlines_ordered : forall now l, 0 <= li_lease l ->
 Proof. exact deadlines_ordered. Qed.
 Print Assumptions C15_deadlines_ordered.
 
+(* the 50 % / 87.5 % fallback is computed in float64 by the code; the model follows it bit by bit (round53): exact up to
+   two weeks, and never off by more than the 2^53-th part for any duration *)
+Theorem C15_fallback_exact : forall lease, 0 <= lease -> lease * 7 < 2 ^ 53 ->
+  half lease = lease / 2 /\ seven_eighths lease = lease * 7 / 8.
+Proof. exact fallback_exact. Qed.
+Print Assumptions C15_fallback_exact.
+
+Theorem C15_float_rounding_bounds : forall n, 0 <= n -> n - n / 2 ^ 53 <= round53 n <= n + n / 2 ^ 53.
+Proof. exact round53_bounds. Qed.
+Print Assumptions C15_float_rounding_bounds.
+
+Theorem C15_fallback_ordered : forall lease, 0 <= lease ->
+  0 <= half lease /\ half lease <= seven_eighths lease /\ seven_eighths lease <= lease.
+Proof. exact fallback_ordered. Qed.
+Print Assumptions C15_fallback_ordered.
+
 Theorem C15_server_times_iff_consistent : forall l,
   use_server_times l = true <-> (Z.of_N gf_min_t1_ns < li_t1 l /\ li_t1 l < li_t2 l /\ li_t2 l < li_lease l).
 Proof. exact use_server_times_iff. Qed.
